@@ -19,6 +19,11 @@ package main
 //           ones optionally while the first shutdown callback is held at a gate (so that the
 //           once-guard is really contended); the events after the first signal and the exit
 //           status are judged
+//   conc  : a history that leaves >= 3 live instances, then executeShutdownCallbacks (hook) while
+//           Instance.Stop of one or two of them is called from other goroutines INSIDE the first
+//           shutdown callback (held until those Stops returned or were blocked for 60 ms): the
+//           callbacks that ran, the stop events, the exit status and casket.Instances() at the end
+//           are judged against the interleaving model of allShutdownCallbacks / Stop
 
 import (
 	"bufio"
@@ -52,6 +57,7 @@ type c16Srv struct {
 	Graceful   bool `json:"graceful,omitempty"`
 	File       int  `json:"file,omitempty"` // 0 no File(), 1 File() ok, 2 File() errors
 	ListenFail bool `json:"listen_fail,omitempty"`
+	StopErr    bool `json:"stop_err,omitempty"` // GracefulServer.Stop returns an error (drain timeout)
 }
 type c16Cfg struct {
 	ParseFail bool     `json:"parse_fail,omitempty"`
@@ -64,6 +70,7 @@ type c16Cfg struct {
 	Shutdown  []c16Cb  `json:"shutdown,omitempty"`
 	Final     []c16Cb  `json:"final,omitempty"`
 	Servers   []c16Srv `json:"servers,omitempty"`
+	SetupPanic bool    `json:"setup_panic,omitempty"` // a directive's setup function panics
 }
 type c16Op struct {
 	Op  string  `json:"op"` // start restart stopinst stopall shutdowncbs exec wait
@@ -71,8 +78,9 @@ type c16Op struct {
 	Cfg *c16Cfg `json:"cfg,omitempty"`
 }
 type c16In struct {
-	Kind  string   `json:"kind"` // hist | child
+	Kind  string   `json:"kind"` // hist | child | conc
 	Ops   []c16Op  `json:"ops"`
+	Stops []int    `json:"stops,omitempty"` // conc: handles whose Instance.Stop is called during the first shutdown callback
 	Sigs  []string `json:"sigs,omitempty"` // INT | TERM
 	Gated bool     `json:"gated,omitempty"`
 	Note  string   `json:"note,omitempty"`
@@ -165,11 +173,11 @@ func c16CfgTerm(c *c16Cfg) string {
 	}
 	sv := make([]string, len(c.Servers))
 	for i, s := range c.Servers {
-		sv[i] = fmt.Sprintf("(mkSrv %d %s %d %s)", s.Addr, cBool(s.Graceful), s.File, cBool(s.ListenFail))
+		sv[i] = fmt.Sprintf("(mkSrv %d %s %d %s %s)", s.Addr, cBool(s.Graceful), s.File, cBool(s.ListenFail), cBool(s.StopErr))
 	}
 	return "(mkCfg " + cBool(c.ParseFail) + " " + cBool(c.SetupFail) + " " + cBool(c.MakeFail) + " " +
 		c16CbsTerm(c.First) + " " + c16CbsTerm(c.Startup) + " " + c16CbsTerm(c.Restart) + " " +
-		c16CbsTerm(c.RFailed) + " " + c16CbsTerm(c.Shutdown) + " " + c16CbsTerm(c.Final) + " " + cList(sv) + ")"
+		c16CbsTerm(c.RFailed) + " " + c16CbsTerm(c.Shutdown) + " " + c16CbsTerm(c.Final) + " " + cList(sv) + " " + cBool(c.SetupPanic) + ")"
 }
 func c16OpTerm(o c16Op) string {
 	switch o.Op {
@@ -198,6 +206,8 @@ func c16ResTerm(r c16Res) string {
 		return "(RNum " + strconv.Itoa(r.N) + ")"
 	case "bool":
 		return "(RBool " + cBool(r.OK) + ")"
+	case "panic":
+		return "RPanic"
 	}
 	return "RUnit"
 }
@@ -247,7 +257,7 @@ func (w *c16World) emit(e c16Ev) {
 // ------------------------------------------------------------------ probe server type
 const c16Type = "verifc16"
 
-var c16Dirs = []string{"cfirst", "cstartup", "crestart", "crfailed", "cshutdown", "cfinal", "server", "makefail", "setupfail"}
+var c16Dirs = []string{"cfirst", "cstartup", "crestart", "crfailed", "cshutdown", "cfinal", "server", "makefail", "setupfail", "setuppanic"}
 
 type c16Ctx struct {
 	w        *c16World
@@ -386,6 +396,10 @@ func (g c16Graceful) Stop() error {
 	g.w.emit(c16Ev{T: "stop", I: g.inst, S: g.idx})
 	g.stopReq.Store(true)
 	g.release()
+	if g.spec.StopErr {
+		// what httpserver.Server.Stop returns when a connection outlives the graceful timeout
+		return errors.New("context deadline exceeded")
+	}
 	return nil
 }
 func (g c16Graceful) Address() string { return "c16addr" + strconv.Itoa(g.spec.Addr) }
@@ -460,12 +474,12 @@ func c16Register() {
 			ctx := c.Context().(*c16Ctx)
 			for c.Next() {
 				a := c.RemainingArgs()
-				if len(a) != 4 {
+				if len(a) != 5 {
 					return c.ArgErr()
 				}
 				addr, _ := strconv.Atoi(a[0])
 				file, _ := strconv.Atoi(a[2])
-				ctx.specs = append(ctx.specs, c16Srv{Addr: addr, Graceful: a[1] == "g", File: file, ListenFail: a[3] == "fail"})
+				ctx.specs = append(ctx.specs, c16Srv{Addr: addr, Graceful: a[1] == "g", File: file, ListenFail: a[3] == "fail", StopErr: a[4] == "err"})
 			}
 			return nil
 		})
@@ -474,6 +488,7 @@ func c16Register() {
 			return nil
 		})
 		plug("setupfail", func(c *casket.Controller) error { return errors.New("c16: setup told to fail") })
+		plug("setuppanic", func(c *casket.Controller) error { panic("c16: setup told to panic") })
 		casket.RegisterEventHook("verifc16", func(ev casket.EventName, info interface{}) error {
 			w := c16W
 			if w == nil {
@@ -522,19 +537,25 @@ func c16Render(c *c16Cfg) string {
 		sb.WriteString("  setupfail\n")
 	}
 	for _, s := range c.Servers {
-		g, lf := "n", "ok"
+		g, lf, se := "n", "ok", "ok"
 		if s.Graceful {
 			g = "g"
 		}
 		if s.ListenFail {
 			lf = "fail"
 		}
-		fmt.Fprintf(&sb, "  server %d %s %d %s\n", s.Addr, g, s.File, lf)
+		if s.StopErr {
+			se = "err"
+		}
+		fmt.Fprintf(&sb, "  server %d %s %d %s %s\n", s.Addr, g, s.File, lf, se)
 	}
 	cbs("crfailed", c.RFailed)
 	cbs("crestart", c.Restart)
 	if c.MakeFail {
 		sb.WriteString("  makefail\n")
+	}
+	if c.SetupPanic {
+		sb.WriteString("  setuppanic\n")
 	}
 	cbs("cstartup", c.Startup)
 	cbs("cfirst", c.First)
@@ -635,7 +656,22 @@ func (w *c16World) doOp(o c16Op) (res c16Res, problem string) {
 		inst := w.handles[o.H]
 		switch o.Op {
 		case "start":
-			ni, err := casket.Start(c16Input(o.Cfg))
+			var ni *casket.Instance
+			var err error
+			panicked := false
+			func() {
+				defer func() {
+					if p := recover(); p != nil {
+						panicked = true
+					}
+				}()
+				ni, err = casket.Start(c16Input(o.Cfg))
+			}()
+			if panicked {
+				// casket.Start does not recover a plugin's panic: it reaches the embedding program
+				r = c16Res{T: "panic"}
+				break
+			}
 			r = c16Res{T: "inst", OK: err == nil}
 			if err == nil {
 				w.mu.Lock()
@@ -778,7 +814,7 @@ func c16PredictStart(cfg *c16Cfg, old *c16Cfg) (ok bool, consumed bool) {
 	if cfg.ParseFail {
 		return false, false
 	}
-	if cfg.SetupFail || cfg.MakeFail {
+	if cfg.SetupFail || cfg.SetupPanic || cfg.MakeFail {
 		return false, true
 	}
 	if old == nil && c16AnyFail(cfg.First) {
@@ -1131,10 +1167,105 @@ func c16RunChild(in *c16In) Result {
 		Class: "child:" + strings.Join(in.Sigs, "+") + ":gated=" + fmt.Sprint(in.Gated)}
 }
 
+// ------------------------------------------------------------------ conc cases
+func c16RunConc(in *c16In) Result {
+	c16Register()
+	w := c16NewWorld(nil)
+	casket.VerifC16ResetShutdownOnce()
+	recs, problem := w.runOps(in.Ops, nil)
+	for i := len(recs); i < len(in.Ops); i++ {
+		recs = append(recs, c16Rec{Op: in.Ops[i], Res: c16Res{T: "unit"}})
+	}
+	var stopWg sync.WaitGroup
+	stopsDone := make(chan struct{})
+	var launch sync.Once
+	blocked := false
+	launchStops := func() {
+		launch.Do(func() {
+			for _, h := range in.Stops {
+				inst := w.handles[h]
+				if inst == nil {
+					continue
+				}
+				stopWg.Add(1)
+				go func(i *casket.Instance) {
+					defer stopWg.Done()
+					defer func() { recover() }()
+					i.Stop()
+				}(inst)
+			}
+			go func() { stopWg.Wait(); close(stopsDone) }()
+		})
+	}
+	// called inside the first shutdown callback that runs: the Stops are started now; the callback
+	// goes on when they have returned (they got through) or are seen blocked on the lock
+	w.gateWait = func() {
+		launchStops()
+		select {
+		case <-stopsDone:
+		case <-time.After(60 * time.Millisecond):
+			blocked = true
+		}
+	}
+	m := w.mark()
+	w.gateArmed.Store(true)
+	code := 0
+	done := make(chan int, 1)
+	go func() {
+		defer func() {
+			if p := recover(); p != nil {
+				done <- 99
+			}
+		}()
+		done <- casket.VerifC16ExecuteShutdownCallbacks("SIGTERM")
+	}()
+	select {
+	case code = <-done:
+	case <-time.After(8 * time.Second):
+		code = 98
+		if problem == "" {
+			problem = "executeShutdownCallbacks did not return within 8 s"
+		}
+	}
+	w.gateArmed.Store(false)
+	launchStops() // no shutdown callback ran at all: the Stops simply follow
+	select {
+	case <-stopsDone:
+	case <-time.After(5 * time.Second):
+		if problem == "" {
+			problem = "Instance.Stop did not return within 5 s after the shutdown callbacks had run"
+		}
+	}
+	w.settle()
+	ev := w.since(m)
+	var after []int
+	for _, inst := range casket.Instances() {
+		w.mu.Lock()
+		id, ok := w.byInst[inst]
+		w.mu.Unlock()
+		if !ok {
+			id = 777777
+		}
+		after = append(after, id)
+	}
+	w.cleanup()
+	var eh []string
+	for _, e := range ev {
+		eh = append(eh, c16EvHuman(e))
+	}
+	term := "(CConc " + c16RecsTerm(recs) + " " + cNatList(in.Stops) + " " + c16EvsTerm(ev) + " " + strconv.Itoa(code) + " " + cNatList(after) + ")"
+	return Result{Term: term, Obs: map[string]interface{}{"records": c16Human(recs), "stops": in.Stops, "during_shutdown": eh, "exit": code,
+		"instances_after": after, "stops_blocked_by_lock": blocked, "problem": problem},
+		Sig: "conc", Nontrivial: len(ev) >= 4 && len(in.Stops) > 0, Direct: problem, Class: "conc:stops=" + strconv.Itoa(len(in.Stops))}
+}
+
 func c16Run(in0 interface{}) Result {
 	in := in0.(*c16In)
 	if in.Kind == "child" {
 		return c16RunChild(in)
+	}
+	if in.Kind == "conc" {
+		return c16RunConc(in)
 	}
 	return c16RunHist(in)
 }
@@ -1152,7 +1283,7 @@ func c16GenCbs(r *Rand, maxn int, failAt int) []c16Cb {
 	return out
 }
 
-var c16Stages = []string{"none", "parse", "setup", "make", "first", "startup", "listen", "file", "restartcb", "rfailedcb", "finalcb", "shutdowncb"}
+var c16Stages = []string{"none", "parse", "setup", "panic", "make", "first", "startup", "listen", "file", "restartcb", "rfailedcb", "finalcb", "shutdowncb"}
 
 // a configuration with at most one fault; stage says where
 func c16GenCfg(r *Rand, stage string) *c16Cfg {
@@ -1176,6 +1307,8 @@ func c16GenCfg(r *Rand, stage string) *c16Cfg {
 		c.SetupFail = true
 	case "make":
 		c.MakeFail = true
+	case "panic":
+		c.SetupPanic = true
 	}
 	ns := r.Intn(4)
 	if (stage == "listen" || stage == "file") && ns == 0 {
@@ -1189,6 +1322,8 @@ func c16GenCfg(r *Rand, stage string) *c16Cfg {
 		default:
 			s.File = 1
 		}
+		// its Stop returns an error (a drain timeout): Instance.Stop logs it and goes on
+		s.StopErr = s.Graceful && r.Chance(20)
 		c.Servers = append(c.Servers, s)
 	}
 	if stage == "listen" {
@@ -1210,8 +1345,10 @@ func c16GenCfg(r *Rand, stage string) *c16Cfg {
 func c16PickStage(r *Rand, quirkOK bool) string {
 	x := r.Intn(100)
 	switch {
-	case x < 50:
+	case x < 47:
 		return "none"
+	case x < 50:
+		return "panic"
 	case x < 54:
 		return "parse"
 	case x < 58:
@@ -1393,8 +1530,42 @@ func c16Scenarios(r *Rand, quirkOK bool) []*c16In {
 			out = append(out, &c16In{Kind: "hist", Ops: all, Note: "scenario:" + st})
 		}
 	}
+	// a reload of an instance that has nothing to hand over (no server / only non-graceful servers /
+	// listeners without a file descriptor) is still a reload: no first-startup callback, no
+	// OnStartupComplete, every listener obtained afresh
+	for v := 0; v < 4; v++ {
+		old := full()
+		switch v {
+		case 0:
+			old.Servers = nil
+		case 1:
+			old.Servers = []c16Srv{{Addr: 0, Graceful: false, File: 1}, {Addr: 1, Graceful: false, File: 0}}
+		case 2:
+			old.Servers = []c16Srv{{Addr: 0, Graceful: true, File: 0}}
+		default:
+			old.Servers = []c16Srv{{Addr: 0, Graceful: true, File: 0}, {Addr: 1, Graceful: false, File: 1}}
+		}
+		nc := full()
+		nc.Servers = append([]c16Srv{{Addr: 0, Graceful: true, File: 1}}, nc.Servers...)
+		out = append(out, &c16In{Kind: "hist", Note: "nothing-to-hand-over", Ops: []c16Op{
+			{Op: "start", Cfg: old}, {Op: "restart", H: 0, Cfg: old}, {Op: "restart", H: 1, Cfg: nc}, {Op: "restart", H: 2, Cfg: c16GenCfg(r, "startup")},
+			{Op: "wait", H: 0}, {Op: "exec"}, {Op: "stopall"}, {Op: "wait", H: 2}}})
+	}
+	// a server of the instance being replaced does not stop cleanly (drain timeout): the reload
+	// succeeds all the same, the remaining servers are stopped, the old OnShutdown callbacks run
+	for v := 0; v < 4; v++ {
+		old := full()
+		old.Servers = []c16Srv{{Addr: 0, Graceful: true, File: 1, StopErr: v != 1}, {Addr: 1, Graceful: true, File: v % 2, StopErr: v >= 1}, {Addr: 2, Graceful: v == 3, File: 1}}
+		nc := full()
+		tail := []c16Op{{Op: "wait", H: 0}, {Op: "exec"}, {Op: "stopall"}, {Op: "wait", H: 1}}
+		if v == 2 {
+			tail = []c16Op{{Op: "restart", H: 1, Cfg: old}, {Op: "stopinst", H: 2}, {Op: "wait", H: 0}, {Op: "exec"}}
+		}
+		out = append(out, &c16In{Kind: "hist", Note: "old-server-stop-error", Ops: append([]c16Op{
+			{Op: "start", Cfg: old}, {Op: "restart", H: 0, Cfg: nc}}, tail...)})
+	}
 	// failing fresh starts at every stage, then a good start: first-startup only then
-	for _, st := range []string{"parse", "setup", "make", "first", "startup", "listen"} {
+	for _, st := range []string{"parse", "setup", "panic", "make", "first", "startup", "listen"} {
 		a := 1 // number of the instance of the second start
 		if st == "parse" {
 			a = 0
@@ -1436,10 +1607,46 @@ func c16GenChild(r *Rand, k int) *c16In {
 	}
 }
 
+// process shutdown with concurrent Instance.Stop calls: at least three live instances, each with
+// shutdown callbacks; the Stops are launched while the first shutdown callback runs
+func c16GenConc(r *Rand) *c16In {
+	g := &c16GState{}
+	var ops []c16Op
+	push := func(o c16Op) {
+		ops = append(ops, o)
+		g.apply(o)
+	}
+	mk := func() *c16Cfg {
+		c := c16GenCfg(r, "none")
+		if len(c.Shutdown) == 0 {
+			c.Shutdown = []c16Cb{{ID: 0}}
+		}
+		return c
+	}
+	n := 3 + r.Intn(2)
+	for i := 0; i < n; i++ {
+		push(c16Op{Op: "start", Cfg: mk()})
+	}
+	if r.Chance(40) {
+		push(c16Op{Op: "restart", H: g.live[r.Intn(len(g.live))].id, Cfg: mk()})
+	}
+	// one or two of them are stopped, at least one that is not the last of the list
+	var stops []int
+	first := r.Intn(len(g.live) - 1)
+	stops = append(stops, g.live[first].id)
+	if r.Chance(40) {
+		second := r.Intn(len(g.live))
+		if second != first {
+			stops = append(stops, g.live[second].id)
+		}
+	}
+	return &c16In{Kind: "conc", Ops: ops, Stops: stops}
+}
+
 func c16Gen(r *Rand, tier string) []interface{} {
-	nh, nq, nc, maxOps := 260, 8, 24, 8
+	nh, nq, nc, maxOps, nconc := 260, 8, 24, 8, 14
 	if tier == "thorough" {
-		nh, nq, nc, maxOps = 3000, 60, 240, 14
+		nh, nq, nc, maxOps, nconc = 3000, 60, 240, 14, 140
 	}
 	var out []interface{}
 	// reloads of an instance whose OnShutdown callbacks fail (the class of the repaired finding
@@ -1456,6 +1663,9 @@ func c16Gen(r *Rand, tier string) []interface{} {
 	for i := 0; i < nc; i++ {
 		out = append(out, c16GenChild(r, i))
 	}
+	for i := 0; i < nconc; i++ {
+		out = append(out, c16GenConc(r))
+	}
 	return out
 }
 
@@ -1463,7 +1673,7 @@ func init() {
 	extraCommands["c16child"] = c16ChildMain
 	register(&Property{
 		ID: "C16", Imports: "V.Lib V.C16_Model", Judge: "judge", Shard: 40,
-		Rule: "histories over {Start, Restart (ok / failing at parse, setup, MakeServers, OnStartup, Listen, listener hand-over, OnRestart, old OnShutdown), Instance.Stop, Stop, ShutdownCallbacks, executeShutdownCallbacks, Wait probe} on a probe server type with recording callbacks and fake servers (graceful or not, with/without inheritable listeners): systematic scenarios per failure stage + random histories (<= 8 ops quick, <= 14 thorough); child processes of the harness run a history, call casket.TrapSignals and receive SIGINT/SIGTERM sequences (later signals while the first shutdown callback is held); non-trivial = at least one successful start and two operations with events (hist) / at least two events after the signal (child)",
+		Rule: "histories over {Start, Restart (ok / failing at parse, setup, MakeServers, OnStartup, Listen, listener hand-over, OnRestart, old OnShutdown), Instance.Stop, Stop, ShutdownCallbacks, executeShutdownCallbacks, Wait probe} on a probe server type with recording callbacks and fake servers (graceful or not, with/without inheritable listeners): systematic scenarios per failure stage + random histories (<= 8 ops quick, <= 14 thorough); servers whose Stop returns a drain-timeout error, configurations whose set-up panics, old instances with nothing to hand over; child processes of the harness run a history, call casket.TrapSignals and receive SIGINT/SIGTERM sequences (later signals while the first shutdown callback is held); conc: >= 3 live instances, executeShutdownCallbacks with Instance.Stop of 1-2 of them launched inside the first shutdown callback; non-trivial = at least one successful start and two operations with events (hist) / at least two events after the signal (child) / at least four events during the shutdown (conc)",
 		Gen:    c16Gen,
 		Decode: func(raw json.RawMessage) (interface{}, error) { in := &c16In{}; return in, json.Unmarshal(raw, in) },
 		Run:    c16Run,
